@@ -747,8 +747,11 @@ package raft
 //@   requires request != nil && response != nil
 //@   let X = request.LastIncludedIndex
 //@   let T = request.LastIncludedTerm
-//@   assume [A-ES] request.Term == r.currentTerm ==> r.state != Leader
-//@   assume [A-LM] request.Term >= r.currentTerm && X <= r.commitIndex && inLog(X) ==> Lterm[X] == T
+// A-ES and A-LM are facts about the cluster that hold at any time; the handler first waits for an
+// operation that is being applied (the lock is released there), so they are attached to the first
+// statement after that wait rather than to the function entry.
+//@   at call r.logger.Debugf assume [A-ES] request.Term == r.currentTerm ==> r.state != Leader
+//@   at call r.logger.Debugf assume [A-LM] request.Term >= r.currentTerm && X <= r.commitIndex && inLog(X) ==> Lterm[X] == T
 //@   ensures [IS.shutdown] err != nil ==> Llast == old(Llast) && Lfirst == old(Lfirst) && r.commitIndex == old(r.commitIndex) && r.lastApplied == old(r.lastApplied) && r.currentTerm == old(r.currentTerm) && r.votedFor == old(r.votedFor)
 //@   ensures [IS.stale-term] err == nil && request.Term < entry(r.currentTerm) && old(r.state) != Shutdown ==> response.Term >= request.Term
 //@   ensures [IS.term-reply] err == nil ==> response.Term >= entry(r.currentTerm) && response.Term <= r.currentTerm && r.currentTerm >= entry(r.currentTerm)
@@ -757,6 +760,7 @@ package raft
 //@   at call io.Copy assert [IS.offset] request.Offset == sfPos[r.snapshot] && sfWriter[r.snapshot] && !sfPublished[r.snapshot] && X > r.lastIncludedIndex && X > r.lastApplied
 //@   at call r.snapshot.Close assert [IS.publish-label] sfIndex[r.snapshot] == X && sfTerm[r.snapshot] == T && request.Done
 //@   at call r.snapshot.Close assert [IS.publish-newest] lockheld() && sfSeq[r.snapshot] > snapSeq
+//@   at call r.fsm.Restore assert [IS.no-apply-in-flight] !r.applying
 //@   at call r.fsm.Restore assert [IS.restore-received] lockheld() && sfIndex[snapshot] == X && sfTerm[snapshot] == T
 //@   at before-assign r.lastApplied assert [IS.applied-is-restored] fsmIndex == newval
 //@   at call r.log.Compact assert [IS.compact-after-applied] r.lastApplied >= X && arg0 == X
